@@ -1,5 +1,6 @@
 import Rare.Base.Proto
 import Rare.Model.C07
+import Rare.Model.C07Sorted
 import Rare.Drv.C07Acc
 /-!
 Line-protocol driver for C07 (see `harness/corr/c07.go` for the op list and dump formats).
@@ -217,7 +218,42 @@ def runSplit (d s : Bytes) (n : Nat) : String :=
     (sp, s!"{Hex.enc v}/{if sp.done then 1 else 0}" :: acc.2)) (({ S := s, delim := d } : Splitter), [])
   "ok " ++ commaJoin outs.reverse
 
+/-! sorted / counted accessors -/
+
+def nvSorter (n : String) : NVLess := if n == "v" then nvValueSorter else nvNameSorter
+
+def runSortedCounter (less : NVLess) (count : Int) (hist : List Bytes) : String :=
+  let c := Counter.run hist
+  match c.itemsSortedBy less (akeys c.items) count with
+  | .error _ => "panic"
+  | .ok items => s!"ok gc={c.groupCount} [{commaJoin (items.map fun (k, v) => s!"{Hex.enc k}={v}")}]"
+
+def runSortedSubKey (less : NVLess) (hist : List Bytes) : String :=
+  match SubKeyCounter.run hist with
+  | .error _ => "panic"
+  | .ok s =>
+    let items := s.itemsSorted less (akeys s.items)
+    s!"ok [{commaJoin (items.map fun (k, it) => s!"{Hex.enc k}={it.count}")}]"
+
+def runSortedTable (less : NVLess) (d : Bytes) (hist : List Bytes) : String :=
+  let t := Table.run d hist
+  let cols := t.orderedColumns less (akeys t.cols)
+  let rows := t.orderedRows less (akeys t.rows)
+  s!"ok cc={t.columnCount} rc={t.rowCount} cols[{commaJoin (cols.map fun c => s!"{Hex.enc c}={t.colTotal c}")}] rows[{commaJoin (rows.map fun r => s!"{Hex.enc r.name}={r.sum}")}]"
+
 def handle : List String → String
+  | ["sorted", "counter", srt, count, h] =>
+    match decHexList h, count.toInt? with
+    | some hist, some n => runSortedCounter (nvSorter srt) n hist
+    | _, _ => "bad-args"
+  | ["sorted", "subkey", srt, h] =>
+    match decHexList h with
+    | some hist => runSortedSubKey (nvSorter srt) hist
+    | none => "bad-args"
+  | ["sorted", "table", srt, d, h] =>
+    match Hex.dec d, decHexList h with
+    | some d, some hist => runSortedTable (nvSorter srt) d hist
+    | _, _ => "bad-args"
   | "acc" :: rest => (C07Acc.handle ("acc" :: rest)).getD "bad-args"
   | ["agg", "counter", h] =>
     match decHexList h with
